@@ -5,24 +5,27 @@ open Drv_tmpl
    struct    id <text> <name> <wire A> <wire B> <outcome A> <bytes A> <outcome B> <bytes B> <parse trees>
      A = inert placeholder environment, B = control-equivalent hostile environment, both executed by the
      real engine.  Oracle (spec/StructureSpec.v over spec/HtmlTok.v): no comment tokens in either output,
-     equal skeletons (structure tokens + final tokenizer state), final state data.
+     equal skeletons (structure tokens + final tokenizer state: "the same state as the author's own
+     markup"; whether that state is the data state is a statistic, not a clause).
    placement id <text> <name> <wire> <outcome> <bytes> <spans off:len,...> <parse trees>
-     the spans are where the untrusted markers landed; oracle: every byte of a span is consumed as text,
-     RCDATA text or quoted attribute value.
+     the spans are where the untrusted markers landed; oracle: every byte of a span is consumed as the
+     content of a text node (data, RCDATA, raw text, script data, PLAINTEXT) or as a byte of a quoted
+     attribute value - never as tag name, attribute name, unquoted value, tag punctuation, comment, DOCTYPE.
    A failing case is tagged with a recorded finding only when that finding's classifier (an extracted
    Gallina predicate over the TEMPLATE) accepts it:
      D13  finding_D13 text (static text has the comment opener inside a script element body) AND the
-          tokenizer is in the script data family at the failing place;
-     D41  finding_D41 text (static text opens xmp / iframe / noembed / noframes / noscript / plaintext) AND the
-          tokenizer is in the RAWTEXT / PLAINTEXT state of such an element at the failing place;
+          tokenizer is in the script data family at the end of one of the two outputs: the engine took the
+          script element for closed and HTML-escapes data that the tokenizer reads in the script data
+          escaped states, where a run of hyphens changes the state (and, with a static > after it, where
+          the escaped section ends);
      D42  finding_D42 text (static text has a DOCTYPE declaration) AND the tokenizer is inside a DOCTYPE at the
           failing place, or the two skeletons differ only in the name of DOCTYPE tokens;
-     D44  finding_D44 text (the tokenizer finds a start tag of script / style / textarea / title with an
-          attribute whose name contains a less-than sign) AND the tokenizer is inside such an element
-          at the failing place;
      D43  finding_D43 trees (a text node of the template ends inside a tag name) AND, in the placement stream,
           the offending bytes were consumed as part of a tag name;
-     D1   finding_D1 trees (a template called from >= 2 sites whose body changes the context). *)
+     D1   finding_D1 trees (a template called from >= 2 sites whose body changes the context).
+   (D41, D44 and the other shapes of D13 - engine / tokenizer misalignments on the author's static markup - were tagged here by
+   an earlier oracle that also demanded a final data state; that demanded more than the property
+   states and was corrected.  Their classifiers remain in spec/StructureSpec.v for props/C01_findings.v.) *)
 
 let trees_of_wire (p : string) : (V.n list * V.node list) list =
   if p = "E" || p = "" then []
@@ -63,9 +66,7 @@ let where_of_states (l : V.hstate list) =
 
 let finding_tag ~(text : V.n list) ~(parsed : string) (w : where) : string =
   if w.script && V.finding_D13 text then "\tfinding=D13"
-  else if w.raw && V.finding_D41 text then "\tfinding=D41"
   else if w.doctype && V.finding_D42 text then "\tfinding=D42"
-  else if w.special && V.finding_D44 text then "\tfinding=D44"
   else begin
     let trees = try trees_of_wire parsed with _ -> [] in
     if w.tagname && V.finding_D43 trees then "\tfinding=D43"
@@ -95,12 +96,14 @@ let () =
             (* a change confined to the name of a DOCTYPE token *)
             let w = if clause = "structure_changed_by_data" && V.same_structure_mod_doctype a b then { w with doctype = true } else w in
             fail clause w
-          | None -> ok id (if a = b then "same_output" else "+same_structure")
+          | None ->
+            ok id (if a = b then "same_output"
+                   else if V.ends_in_data a then "+same_structure"
+                   else "+same_structure_and_same_final_state_other_than_data")
         end
         else if ob = "execerr" then begin
           (* a sanitizer refused the hostile value; the inert rendering alone must still be well formed *)
           if not (V.no_comments a) then fail "comment_token_in_output" { nowhere with tagname = true }
-          else if not (V.ends_in_data a) then fail "output_does_not_end_in_data_state" (where_of_states [final_state a])
           else ok id "+hostile_value_rejected_at_run_time"
         end
         else ok id ("other:" ^ ob)
